@@ -152,8 +152,16 @@ Fixpoint dec_fuel (fuel : nat) (n : N) (acc : str) : str :=
   | S f => let acc' := (48 + n mod 10) :: acc in
            if n <? 10 then acc' else dec_fuel f (n / 10) acc'
   end.
-(* a number has no more decimal digits than binary digits, so the fuel never runs out *)
-Definition dec_N (n : N) : str := dec_fuel (S (N.size_nat n)) n [].
+(* a number has no more decimal digits than binary digits, so the fuel never
+   runs out (proved: undec_dec_N in Proofs2.v) *)
+Definition dec_N (n : N) : str := dec_fuel (S (N.to_nat (N.size n))) n [].
+(* int(text) for a digit string *)
+Definition undec (s : str) : N := fold_left (fun a c => 10 * a + (c - 48)) s 0.
+Definition undec_Z (s : str) : Z :=
+  match s with
+  | 45 :: t => Z.opp (Z.of_N (undec t))
+  | _ => Z.of_N (undec s)
+  end.
 Definition dec_Z (z : Z) : str :=
   match z with
   | Z0 => [48]
@@ -162,13 +170,61 @@ Definition dec_Z (z : Z) : str :=
   end.
 
 (* ------------------------------------------------------------------ *)
+(* httputil.format_timestamp(int) = email.utils.formatdate(t, usegmt=True):
+   "%s, %02d %s %04d %02d:%02d:%02d GMT" % (weekday, day, month, year, h, m, s)
+   of time.gmtime(t)                                                    *)
+
+Definition wd_names : list str :=
+  [[77;111;110]; [84;117;101]; [87;101;100]; [84;104;117]; [70;114;105]; [83;97;116]; [83;117;110]].
+Definition mon_names : list str :=
+  [[74;97;110]; [70;101;98]; [77;97;114]; [65;112;114]; [77;97;121]; [74;117;110];
+   [74;117;108]; [65;117;103]; [83;101;112]; [79;99;116]; [78;111;118]; [68;101;99]].
+
+(* days since 0001-01-01 -> (year, month 1..12, day 1..31), proleptic Gregorian
+   (the usual era/day-of-era computation; all quantities are non-negative) *)
+Definition civil (days : N) : N * N * N :=
+  let z := days + 306 in
+  let era := z / 146097 in
+  let doe := z mod 146097 in
+  let yoe := (doe - doe / 1460 + doe / 36524 - doe / 146096) / 365 in
+  let doy := doe - (365 * yoe + yoe / 4 - yoe / 100) in
+  let mp := (5 * doy + 2) / 153 in
+  let d := doy - (153 * mp + 2) / 5 + 1 in
+  let m := if mp <? 10 then mp + 3 else mp - 9 in
+  let y := yoe + era * 400 + (if m <=? 2 then 1 else 0) in
+  (y, m, d).
+
+Definition pad2 (n : N) : str := [48 + (n / 10) mod 10; 48 + n mod 10].
+(* %04d: at least four digits *)
+Definition pad4 (n : N) : str :=
+  if n <? 10000 then [48 + n / 1000; 48 + (n / 100) mod 10; 48 + (n / 10) mod 10; 48 + n mod 10]
+  else dec_N n.
+
+Definition s_GMT : str := [32; 71; 77; 84].
+
+(* seconds from 0001-01-01T00:00:00Z to the epoch *)
+Definition epoch_offset : Z := 62135596800%Z.
+
+(* the indices are days mod 7 (0001-01-01 is a Monday) and month-1 with month in
+   1..12, so the defaults of nth are never used.  Meaningful for timestamps
+   from year 1 on (expiry_outcome below refuses the others before formatting). *)
+Definition format_ts (t : Z) : str :=
+  let s := Z.to_N (t + epoch_offset) in
+  let days := s / 86400 in
+  let sod := s mod 86400 in
+  let '(y, m, d) := civil days in
+  nth (N.to_nat (days mod 7)) wd_names [83;117;110] ++ [44; 32] ++ pad2 d ++ [32]
+  ++ nth (N.to_nat (m - 1)) mon_names [68;101;99] ++ [32] ++ pad4 y ++ [32]
+  ++ pad2 (sod / 3600) ++ [58] ++ pad2 ((sod / 60) mod 60) ++ [58] ++ pad2 (sod mod 60) ++ s_GMT.
+
+(* ------------------------------------------------------------------ *)
 (* one set_cookie call                                                 *)
 
 Record call := mkCall {
   c_name : str;
   c_value : str;
   c_domain : option str;
-  c_expires : option str;      (* httputil.format_timestamp(expires) when `expires` is truthy; opaque text *)
+  c_expires : option Z;        (* `expires` as a POSIX timestamp (ints; datetimes go through calendar.timegm) *)
   c_path : option str;         (* the default "/" is made explicit by the caller *)
   c_max_age : option Z;
   c_httponly : bool;
@@ -180,9 +236,9 @@ Record call := mkCall {
 Inductive op :=
 | OpSet (c : call)
 | OpClear (c : call)     (* clear_cookie(name, **kw): value := "", max_age absent;
-                            c_expires carries format_timestamp(now - 365 d) *)
+                            c_expires carries timegm(now - 365 d) *)
 | OpSigned (c : call).   (* set_signed_cookie: c_value carries create_signed_value(...) (opaque),
-                            c_expires carries format_timestamp(now + expires_days) *)
+                            c_expires carries timegm(now + expires_days) *)
 
 Definition lower (o : op) : call :=
   match o with
@@ -204,6 +260,13 @@ Definition kv (k v : str) : str := k ++ 61 :: v.
 Definition opt_kv (k : str) (o : option str) : list str :=
   match truthy o with Some v => [kv k v] | None => [] end.
 
+(* `if expires: morsel["expires"] = httputil.format_timestamp(expires)` (0 is falsy) *)
+Definition exp_text (c : call) : option str :=
+  match c_expires c with
+  | Some t => if (t =? 0)%Z then None else Some (format_ts t)
+  | None => None
+  end.
+
 (* `if max_age is not None: morsel["max-age"] = str(max_age)` *)
 Definition max_age_text (m : option Z) : option str :=
   match m with
@@ -215,7 +278,7 @@ Definition max_age_text (m : option Z) : option str :=
    (comment and version are never set without the legacy **kwargs) *)
 Definition out_attrs (c : call) : list str :=
   opt_kv S_Domain (c_domain c)
-  ++ opt_kv S_expires (c_expires c)
+  ++ opt_kv S_expires (exp_text c)
   ++ (if c_httponly c then [S_HttpOnly] else [])
   ++ opt_kv S_MaxAge (max_age_text (c_max_age c))
   ++ opt_kv S_Path (c_path c)
@@ -233,7 +296,7 @@ Definition output_string (c : call) : str := join_semisp (name_value c :: out_at
 Definition header_char_ok (c : N) : bool :=
   (c =? 9) || ((32 <=? c) && (c <=? 126)) || ((128 <=? c) && (c <=? 255)).
 
-Inductive outcome := Ok | ValueErr | CookieErr.
+Inductive outcome := Ok | ValueErr | CookieErr | OSErr | OverflowErr.
 
 (* re.search(r"[\x00-\x20]", value) *)
 Definition bad_value_char (c : N) : bool := c <=? 32.
@@ -244,14 +307,33 @@ Definition attr_clean (s : str) : bool := negb (existsb bad_attr_char s).
 Definition opt_clean (o : option str) : bool :=
   match o with None => true | Some s => attr_clean s end.
 
-(* order of the checks in set_cookie: value, then name/domain/path/samesite,
-   then (inside SimpleCookie.__setitem__ -> Morsel.set) reserved / illegal key *)
+(* `expires_text = httputil.format_timestamp(expires) if expires else None`, computed
+   before the jar is touched; an exception propagates unchanged.  email.utils.formatdate
+   (datetime.fromtimestamp / time.gmtime, 64-bit time_t, glibc): years 1..9999 are
+   representable; beyond that ValueError ("year ... is out of range"), then OSError
+   (EOVERFLOW, the year does not fit a C int), then OverflowError (not a time_t). *)
+Definition expiry_outcome (t : Z) : outcome :=
+  if ((-62135596800 <=? t) && (t <? 253402300800))%Z then Ok
+  else if ((-67768040609740800 <=? t) && (t <? 67768036191676800))%Z then ValueErr
+  else if ((-9223372036854775808 <=? t) && (t <? 9223372036854775808))%Z then OSErr
+  else OverflowErr.
+
+Definition expiry_check (c : call) : outcome :=
+  match c_expires c with
+  | Some t => if (t =? 0)%Z then Ok else expiry_outcome t
+  | None => Ok
+  end.
+
+(* order of the checks in set_cookie: value, then name/domain/path/samesite, then the
+   expiry text, then (inside SimpleCookie.__setitem__ -> Morsel.set) reserved / illegal key *)
 Definition validate (c : call) : outcome :=
   if existsb bad_value_char (c_value c) then ValueErr
   else if negb (attr_clean (c_name c) && opt_clean (c_domain c) && opt_clean (c_path c)
                 && opt_clean (c_samesite c)) then CookieErr
-  else if negb (key_ok (c_name c)) then CookieErr
-  else Ok.
+  else match expiry_check c with
+       | Ok => if negb (key_ok (c_name c)) then CookieErr else Ok
+       | e => e
+       end.
 
 (* the check added at the very end of set_cookie:
    try: self._convert_header_value(morsel.OutputString(None))
@@ -408,16 +490,74 @@ Definition req_opt (k : str) (o : option str) : list (str * option str) :=
 
 Definition requested (c : call) : list (str * option str) :=
   req_opt S_Domain (c_domain c)
-  ++ req_opt S_expires (c_expires c)
+  ++ req_opt S_expires (exp_text c)
   ++ (if c_httponly c then [(S_HttpOnly, None)] else [])
   ++ match c_max_age c with Some z => [(S_MaxAge, Some (dec_Z z))] | None => [] end
   ++ req_opt S_Path (c_path c)
   ++ req_opt S_SameSite (c_samesite c)
   ++ (if c_secure c then [(S_Secure, None)] else []).
 
-(* the opaque expires text is attribute-safe: no ";" and nothing a header refuses *)
-Definition expires_ok (c : call) : bool :=
-  match c_expires c with
-  | None => true
-  | Some e => forallb (fun x => negb (x =? 59) && header_char_ok x) e
+(* ------------------------------------------------------------------ *)
+(* how the request ends, and what RequestHandler does with the jar      *)
+(* Scope: set_cookie calls made while the response head can still be    *)
+(* changed (before flush()); see NOTES.md                               *)
+
+Inductive ending :=
+| EndReturn                      (* the handler method returns; finish() *)
+| EndFinish                      (* raise Finish() *)
+| EndHTTPError (code : N)        (* raise HTTPError(code) -> send_error(code) *)
+| EndException                   (* any other exception -> send_error(500) *)
+| EndSendError (code : N)        (* explicit self.send_error(code) *)
+| EndRedirect (permanent : bool).   (* self.redirect(url, permanent) *)
+
+(* the part of the handler state that matters here *)
+Record hstate := mkH {
+  h_status : N;
+  h_buffered : bool;       (* something is in the write buffer *)
+  h_written : bool;        (* self._headers_written: flush() already sent the response head *)
+  h_jar : jar              (* self._new_cookie *)
+}.
+
+(* RequestHandler.clear(): default headers, empty write buffer, status 200.
+   It does NOT touch _new_cookie. *)
+Definition h_clear (h : hstate) : hstate := mkH 200 false (h_written h) (h_jar h).
+
+(* send_error: `if self._headers_written: ... finish(); return`; otherwise
+   clear(); set_status(code); write_error(); finish() *)
+Definition h_send_error (code : N) (h : hstate) : hstate :=
+  if h_written h then h
+  else let h' := h_clear h in mkH code true false (h_jar h').
+
+Definition h_end (e : ending) (h : hstate) : hstate :=
+  match e with
+  | EndReturn | EndFinish => h
+  | EndHTTPError code => h_send_error code h
+  | EndException => h_send_error 500 h
+  | EndSendError code => h_send_error code h
+  | EndRedirect p =>
+      if h_written h then h       (* redirect() raises "Cannot redirect after headers have been written" *)
+      else mkH (if p then 301 else 302) (h_buffered h) false (h_jar h)
+  end.
+
+(* finish() -> flush(): if the head is still to be written, the status line and
+   the Set-Cookie headers of the jar; None when the head already left (nothing
+   can be added any more: outside the scope of this property) *)
+Definition respond (h : hstate) : option (N * option (list str)) :=
+  if h_written h then None else Some (h_status h, flush (h_jar h)).
+
+Definition end_request (e : ending) (h : hstate) : option (N * option (list str)) :=
+  respond (h_end e h).
+
+(* one request whose calls are all made before anything is flushed: the calls
+   (followed by a body write), then the ending *)
+Definition run_request (ops : list op) (e : ending) : list outcome * option (N * option (list str)) :=
+  let '(res, j) := run_ops ops in
+  (res, end_request e (mkH 200 true false j)).
+
+Definition status_of (e : ending) : N :=
+  match e with
+  | EndReturn | EndFinish => 200
+  | EndHTTPError code | EndSendError code => code
+  | EndException => 500
+  | EndRedirect p => if p then 301 else 302
   end.
